@@ -180,6 +180,14 @@ fn handle(req: &Value) -> Value {
                 Err(e) => json!({"ok": false, "errors": errs(e)}),
             }
         }
+        "lex" => {
+            // tokens of a source text (kinds and byte spans), or the lexer's errors
+            let prql = req["prql"].as_str().unwrap_or("");
+            match prqlc_parser::lexer::lex_source(prql) {
+                Ok(t) => json!({"ok": true, "tokens": serde_json::to_value(&t.0).unwrap_or(Value::Null)}),
+                Err(e) => json!({"ok": false, "errors": e.iter().map(|x| format!("{:?}", x)).collect::<Vec<_>>()}),
+            }
+        }
         "pl_raw" => {
             let prql = req["prql"].as_str().unwrap_or("");
             match prqlc::prql_to_pl(prql).and_then(|pl| prqlc::json::from_pl(&pl)) {
